@@ -12,6 +12,9 @@ thread_local! {
     pub static FORDER: std::cell::Cell<bool> = const { std::cell::Cell::new(false) };
     /// "negstride" scenarios: the matrices are views with a negative stride along the column axis made owned without re-packing
     pub static NEGSTRIDE: std::cell::Cell<bool> = const { std::cell::Cell::new(false) };
+    /// "mixlayout" scenarios: every second matrix column-major, the others row-major (operands of one operation differ in layout)
+    pub static MIXLAYOUT: std::cell::Cell<bool> = const { std::cell::Cell::new(false) };
+    pub static MIXCOUNT: std::cell::Cell<usize> = const { std::cell::Cell::new(0) };
 }
 
 /// the same matrix in column-major layout when the current script asks for it
@@ -24,7 +27,7 @@ pub fn layout(m: Array2<f64>) -> Array2<f64> {
         packed.assign(&r);
         packed.invert_axis(ndarray::Axis(1));
         packed
-    } else if FORDER.with(|f| f.get()) {
+    } else if FORDER.with(|f| f.get()) || (MIXLAYOUT.with(|f| f.get()) && MIXCOUNT.with(|c| { let v = c.get(); c.set(v + 1); v % 2 == 1 })) {
         use ndarray::ShapeBuilder;
         let mut f = Array2::<f64>::zeros(m.raw_dim().f());
         f.assign(&m);
